@@ -258,4 +258,150 @@ theorem sink_static_order_init (ops : List Add) (o : Option Bool) :
 example : ((App.init none).addSink 0).getParamsM none (fun _ => true)
     (fun _ => { groupindex := [("rest", 1), ("tail", 2)], group := fun _ => none }) = [("rest", none), ("tail", none)] := by decide
 
+/-! ### fourth strengthening round: registration histories of routes - the LATEST accepted `add_route` call for a template
+    defines its method map (responder identity, 405 Allow, OPTIONS Allow), whatever was registered there before and whichever
+    resource object it was; `suffix=''` is no suffix; suffixes are compared verbatim -/
+
+theorem find_addRoute (c : List Method) (rs : Routes) (r : RouteReg) (t : String) :
+    Routes.find (addRoute c rs r) t = if r.tmpl = t then some (bind c r) else Routes.find rs t := by
+  induction rs with
+  | nil =>
+    simp only [addRoute, Routes.find, List.find?_cons, List.find?_nil]
+    by_cases h : r.tmpl = t
+    · simp [h]
+    · have : (r.tmpl == t) = false := by simpa using h
+      simp [h, this]
+  | cons e rest ih =>
+    unfold addRoute
+    by_cases he : e.1 = r.tmpl
+    · simp only [he, beq_self_eq_true, if_true]
+      by_cases h : r.tmpl = t
+      · simp [Routes.find, h]
+      · simp [Routes.find, h, he]
+    · have he' : (e.1 == r.tmpl) = false := by simpa using he
+      simp only [he', Bool.false_eq_true, if_false]
+      by_cases h : r.tmpl = t
+      · have : (e.1 == t) = false := by subst h; exact he'
+        simp only [Routes.find, List.find?_cons, this] at ih ⊢
+        simpa [h] using ih
+      · by_cases h2 : e.1 = t
+        · simp [Routes.find, h2, h]
+        · have : (e.1 == t) = false := by simpa using h2
+          simp only [Routes.find, List.find?_cons, this] at ih ⊢
+          simpa [h] using ih
+
+theorem history_find (c : List Method) (t : String) (hist : List RouteReg) : ∀ rs : Routes,
+    Routes.find (hist.foldl (addRouteCall c) rs) t =
+      match ((hist.filter (accepted c)).reverse.find? (·.tmpl == t)) with
+      | some r => some (bind c r)
+      | none => Routes.find rs t := by
+  induction hist with
+  | nil => intro rs; simp
+  | cons r rest ih =>
+    intro rs
+    rw [List.foldl_cons, ih]
+    by_cases ha : accepted c r = true
+    · simp only [List.filter_cons, ha, if_true, List.reverse_cons, List.find?_append]
+      cases hf : (List.filter (accepted c) rest).reverse.find? (·.tmpl == t) with
+      | some x => simp
+      | none =>
+        simp only [addRouteCall, ha, if_true, find_addRoute, Option.none_or, List.find?_cons, List.find?_nil]
+        by_cases h : r.tmpl = t
+        · simp [h]
+        · have : (r.tmpl == t) = false := by simpa using h
+          simp [h, this]
+    · simp only [List.filter_cons, ha, addRouteCall]
+      simp
+
+theorem latest_registration_wins (c : List Method) (hist : List RouteReg) (t : String) :
+    Routes.find (routesOf c hist) t = (((hist.filter (accepted c)).reverse.find? (·.tmpl == t))).map (bind c) := by
+  unfold routesOf
+  rw [history_find]
+  cases (List.filter (accepted c) hist).reverse.find? (·.tmpl == t) <;> simp [Routes.find]
+
+
+theorem effSuffix_empty : effSuffix (some "") = none := rfl
+theorem effSuffix_none : effSuffix none = none := rfl
+theorem effSuffix_nonempty (s : String) (h : s ≠ "") : effSuffix (some s) = some s := by
+  have : s.isEmpty = false := by
+    cases hs : s.isEmpty with
+    | false => rfl
+    | true => exact absurd (String.isEmpty_iff.mp hs) h
+  simp [effSuffix, this]
+
+theorem accepted_iff (c : List Method) (r : RouteReg) :
+    accepted c r = true ↔ effSuffix r.suffix = none ∨ ∃ m ∈ c, ∃ a ∈ r.attrs, a.method = m ∧ a.suffix = effSuffix r.suffix := by
+  unfold accepted
+  rw [Bool.or_eq_true]
+  constructor
+  · rintro (h | h)
+    · exact Or.inl (by simpa using h)
+    · right
+      have h' : mapHttpMethods c r.attrs (effSuffix r.suffix) ≠ [] := by simpa using h
+      obtain ⟨m, hm⟩ := List.exists_mem_of_ne_nil _ h'
+      simp only [mapHttpMethods, List.mem_filter, List.any_eq_true, Bool.and_eq_true, beq_iff_eq] at hm
+      exact ⟨m, hm.1, hm.2⟩
+  · rintro (h | ⟨m, hm, a, ha, h1, h2⟩)
+    · exact Or.inl (by simp [h])
+    · right
+      have : m ∈ mapHttpMethods c r.attrs (effSuffix r.suffix) := by
+        simp only [mapHttpMethods, List.mem_filter, List.any_eq_true, Bool.and_eq_true, beq_iff_eq]
+        exact ⟨hm, a, ha, h1, h2⟩
+      cases hl : mapHttpMethods c r.attrs (effSuffix r.suffix) with
+      | nil => rw [hl] at this; cases this
+      | cons _ _ => rfl
+
+theorem rejected_call_is_noop (c : List Method) (rs : Routes) (r : RouteReg) (h : accepted c r = false) :
+    addRouteCall c rs r = rs := by simp [addRouteCall, h]
+
+theorem accepted_call_rebinds (c : List Method) (rs : Routes) (r : RouteReg) (h : accepted c r = true) :
+    Routes.find (addRouteCall c rs r) r.tmpl = some (bind c r) ∧
+    ∀ t, t ≠ r.tmpl → Routes.find (addRouteCall c rs r) t = Routes.find rs t := by
+  simp only [addRouteCall, h, if_true, find_addRoute]
+  refine ⟨by simp, fun t ht => ?_⟩
+  have : ¬ r.tmpl = t := fun e => ht e.symm
+  simp [this]
+
+theorem reregistered_route_exact (c : List Method) (hist : List RouteReg) (t : String) (r : RouteReg)
+    (h : (hist.filter (accepted c)).reverse.find? (·.tmpl == t) = some r) :
+    ∃ b, Routes.find (routesOf c hist) t = some b ∧ b.suffix = effSuffix r.suffix ∧ b.mm.rid = r.rid ∧
+      (∀ m, b.mm.lookup m = .resource r.rid m ↔ (m ∈ c ∧ ∃ a ∈ r.attrs, a.method = m ∧ a.suffix = effSuffix r.suffix)) ∧
+      (∀ m, m ∈ b.mm.allowed ↔ ((m ∈ c ∧ ∃ a ∈ r.attrs, a.method = m ∧ a.suffix = effSuffix r.suffix) ∧ m ≠ "WEBSOCKET")) ∧
+      (∀ m, m ∈ b.mm.allow405 ↔ (((m ∈ c ∧ ∃ a ∈ r.attrs, a.method = m ∧ a.suffix = effSuffix r.suffix) ∧ m ≠ "WEBSOCKET") ∨ m = "OPTIONS")) := by
+  have himpl : ∀ m, m ∈ (bind c r).mm.impl ↔ (m ∈ c ∧ ∃ a ∈ r.attrs, a.method = m ∧ a.suffix = effSuffix r.suffix) := by
+    intro m
+    simp [bind, mkMethodMap, mapHttpMethods, List.mem_filter, List.any_eq_true]
+  refine ⟨bind c r, by rw [latest_registration_wins, h]; rfl, rfl, rfl, fun m => ?_, fun m => ?_, fun m => ?_⟩
+  · exact suffix_isolation r.rid c r.attrs (effSuffix r.suffix) m
+  · rw [options_allow_exact, himpl]
+  · rw [allow405_exact, himpl]
+
+theorem unregistered_template (c : List Method) (hist : List RouteReg) (t : String)
+    (h : ∀ r ∈ hist, accepted c r = true → r.tmpl ≠ t) : Routes.find (routesOf c hist) t = none := by
+  rw [latest_registration_wins]
+  have : (hist.filter (accepted c)).reverse.find? (·.tmpl == t) = none := by
+    rw [List.find?_eq_none]
+    intro x hx
+    have hx' := List.mem_filter.mp (List.mem_reverse.mp hx)
+    simpa using h x hx'.1 hx'.2
+  rw [this]; rfl
+
+/-- the same resource object (rid 0: `on_get_collection`, `on_post_collection`, `on_get_item`, `on_delete_item`) registered for
+    `/things` with suffix `collection` and then again with suffix `item`: POST is 405 with Allow DELETE, GET, OPTIONS -/
+example : ((Routes.find (routesOf ["GET", "POST", "DELETE", "OPTIONS"]
+    [⟨"/things", 0, [⟨"GET", some "collection"⟩, ⟨"POST", some "collection"⟩, ⟨"GET", some "item"⟩, ⟨"DELETE", some "item"⟩], some "collection"⟩,
+     ⟨"/things", 0, [⟨"GET", some "collection"⟩, ⟨"POST", some "collection"⟩, ⟨"GET", some "item"⟩, ⟨"DELETE", some "item"⟩], some "item"⟩])
+    "/things").map fun b => (b.mm.lookup "POST", b.mm.lookup "DELETE")) =
+    some (.notAllowed ["DELETE", "GET", "OPTIONS"], .resource 0 "DELETE") := by decide
+
+/-- twin responder families that differ in letter case only: `suffix='byId'` reaches `on_get_byId`, never `on_put_byid` -/
+example : ((Routes.find (routesOf ["GET", "PUT", "OPTIONS"]
+    [⟨"/t/{id}", 3, [⟨"GET", some "byId"⟩, ⟨"PUT", some "byid"⟩], some "byId"⟩]) "/t/{id}").map fun b => (b.mm.lookup "GET", b.mm.lookup "PUT")) =
+    some (.resource 3 "GET", .notAllowed ["GET", "OPTIONS"]) := by decide
+
+/-- `suffix=''` is no suffix: the route reaches `on_get`, not `on_get_` -/
+example : ((Routes.find (routesOf ["GET", "PUT", "OPTIONS"]
+    [⟨"/a", 1, [⟨"GET", none⟩, ⟨"PUT", some ""⟩], some ""⟩]) "/a").map fun b => (b.mm.lookup "GET", b.mm.lookup "PUT", b.suffix)) =
+    some (.resource 1 "GET", .notAllowed ["GET", "OPTIONS"], none) := by decide
+
 end Dp
